@@ -24,7 +24,8 @@ Directives (one per line, all start with `//@`):
   //@ensures                             followed by `//@   [<obligation name>] <expr>,` lines
   //@loop <n>                            contract for loop ordinal n (0-based, source order)
   //@  invariant / decreases             followed by clause lines
-  //@at /<regex>/[#n|#*] before|after    splice (n-th match when the anchor occurs several times; #*: at every match, at least one)
+  //@at /<regex>/[#n|#*] before|after|after_block   splice (after_block: the anchor ends with a block's `{`; splice after that block)
+  (before|after) splice (n-th match when the anchor occurs several times; #*: at every match, at least one)
   //@at (old form)                       splice the following `//@   <text>` lines (proof blocks)
   //@end
 
@@ -1778,7 +1779,7 @@ class Gen:
             elif bs == "loop_ensures" and cur_loop is not None:
                 mode = "lens"
             elif bs.startswith("at "):
-                m = re.match(r"at /(.*)/(?:#(\d+|\*))? (before|after)\s*$", bs)
+                m = re.match(r"at /(.*)/(?:#(\d+|\*))? (before|after_block|after)\s*$", bs)
                 if not m:
                     raise VxError("%s:%d: bad at-directive" % (self.vspec_path, vl))
                 cur_at = (m.group(1), m.group(3), [], (0 if m.group(2) == "*" else int(m.group(2))) if m.group(2) else None)
@@ -1991,6 +1992,15 @@ class Gen:
                 if where == "before":
                     # start of the line
                     off = body.rfind("\n", 0, m.start()) + 1
+                elif where == "after_block":
+                    # the anchor ends with the `{` of a block: splice right after that block's closing brace
+                    if body[m.end() - 1] != "{":
+                        raise VxError("at /%s/ after_block: the anchor must end with `{`" % rx)
+                    btoks = code_toks(tokenize(body))
+                    bi = [k for k, bt in enumerate(btoks) if bt.start == m.end() - 1 and bt.text == "{"]
+                    if not bi:
+                        raise VxError("anchor lost: at /%s/ after_block: no block opens there in %s::%s" % (rx, rel, name))
+                    off = btoks[match_close(btoks, bi[0])].end
                 else:
                     off = body.find("\n", m.end())
                     off = len(body) if off < 0 else off + 1
@@ -1998,7 +2008,8 @@ class Gen:
                 for t in tl:
                     mm = re.search(r"//@\[([^\]]+)\]\s*$", t)
                     names.append(mm.group(1) if mm else None)
-                inserts.append((off, "\n".join(tl) + "\n", names))
+                # after_block starts on a fresh line (a leading "\n" is skipped by the emitter without consuming a name)
+                inserts.append((off, ("\n" if where == "after_block" else "") + "\n".join(tl) + "\n", names))
         # assemble with origin tracking
         src_origin = dict(kind="src", file=rel, line=fn_line, fn=newname or name)
         self.functions.append(dict(kind="fn", name=name, as_name=newname or name, file=rel, line=fn_line,
